@@ -261,7 +261,7 @@ def simulate_behaviours(module: str, cfg: str, *, num: int, depth: int, seed: in
 
 
 # ---------------------------------------------------------------- dot dumps
-_re_node = re.compile(r'^(-?\d+) \[label="(.*)"(?:,style = filled)?\];?$')
+_re_node = re.compile(r'^(-?\d+) \[label="((?:[^"\\]|\\.)*)"(.*)\];?$')
 _re_edge = re.compile(r'^(-?\d+) -> (-?\d+) \[label="(.*?)"')
 
 
@@ -283,7 +283,7 @@ def parse_dot(path: str) -> Tuple[Dict[str, dict], List[Tuple[str, str, str]], L
                 nodes[m.group(1)] = parse_state(lab)
             except Exception:  # noqa: BLE001
                 nodes[m.group(1)] = {"_raw": lab}
-            if "style = filled" in ln:
+            if "style = filled" in m.group(3):
                 inits.append(m.group(1))
     return nodes, edges, inits
 
@@ -386,5 +386,31 @@ def validate_batch(module: str, cfg: str, traces: List[dict], *, timeout: float 
             tail = "\n".join(res.output.splitlines()[-40:])
             raise MachineryError(f"no verdict for traces {missing[:10]} from {module}/{cfg}:\n{tail}")
         return [verdicts[t["tid"]] for t in traces], res
+    finally:
+        shutil.rmtree(d, ignore_errors=True)
+
+
+def cover_behaviours(module: str, cfg: str, *, timeout: float = 300, spec_dir: str = SPEC_DIR,
+                     max_paths: int = 100000, workers: int = 1) -> Tuple[List[List[Tuple[str, dict]]], TLCResult]:
+    """Exhaustive run with a state-graph dump; returns behaviours (same shape as
+    simulate_behaviours) that together traverse every edge of the reachable graph."""
+    d = mktemp("dot")
+    try:
+        dot = os.path.join(d, "graph.dot")
+        res = run_tlc(module, cfg, workers=workers, timeout=timeout, dump_dot=dot, deadlock=False, spec_dir=spec_dir)
+        require_clean(res, f"dump {module}/{cfg}")
+        if not os.path.exists(dot):
+            raise MachineryError(f"TLC wrote no state graph for {module}/{cfg}")
+        nodes, edges, inits = parse_dot(dot)
+        paths = transition_cover(nodes, edges, inits, max_paths=max_paths)
+        behs = []
+        for p in paths:
+            if not p:
+                continue
+            beh = [("Init", nodes[p[0][0]])]
+            for (_s, dst, lab) in p:
+                beh.append((lab, nodes[dst]))
+            behs.append(beh)
+        return behs, res
     finally:
         shutil.rmtree(d, ignore_errors=True)
